@@ -45,7 +45,7 @@ int vnadata_set_dprecision(vnadata_t *vdp, int precision)
 	return -1;
     }
     if (precision < 1) {
-	_vnadata_error(vdip, VNAERR_USAGE, "vnadata_set_fprecision: "
+	_vnadata_error(vdip, VNAERR_USAGE, "vnadata_set_dprecision: "
 		"invalid precision: %d", precision);
 	return -1;
     }
